@@ -2,9 +2,11 @@
 trace validation: `ecdsa._rwlock.threading` is replaced by a shim whose Lock.acquire/release are yield points of a
 deterministic scheduler of REAL threads; schedules generated from the model's reachable graph are replayed on the real
 class and compared with the model after every step.  Search oracle (independent of the model): exhaustive DFS with state
-hashing over the schedules of the real class; two writers inside / writer + reader inside / deadlock / an exception /
+hashing over the schedules of the real class — with a context switch possible at every mutex operation AND at every load /
+store of the light-switch counters (sys.monitoring), on a private copy of the module imported under the shim so that a Lock
+created at class-definition time is driven too; two writers inside / writer + reader inside / deadlock / an exception /
 not reusable at the end / readers never sharing is a violation, with the schedule as replay."""
-import os, subprocess, time, multiprocessing
+import os, sys, dis, types, subprocess, time, multiprocessing, importlib.util
 from lib import common
 from lib.dsched import Sched
 
@@ -83,6 +85,85 @@ class ShimThreading:
     Lock = ShimLock
 
 
+_RWMOD = [None]
+
+
+def load_rwmod():
+    """a private copy of ecdsa/_rwlock.py imported with `threading` replaced by the shim, so that EVERY Lock the module
+    creates — also one created at class-definition time — is a ShimLock"""
+    if _RWMOD[0] is not None:
+        return _RWMOD[0]
+    path = os.path.join(common.SRC, "ecdsa", "_rwlock.py")
+    import threading as real
+    shim = types.ModuleType("threading")
+    shim.__dict__.update({k: v for k, v in vars(real).items() if not k.startswith("__")})
+    shim.Lock = ShimLock
+    saved = sys.modules["threading"]
+    sys.modules["threading"] = shim
+    try:
+        spec = importlib.util.spec_from_file_location("verif_rwlock_under_test", path)
+        mod = importlib.util.module_from_spec(spec)
+        spec.loader.exec_module(mod)
+    finally:
+        sys.modules["threading"] = saved
+    _RWMOD[0] = mod
+    _install_monitoring(mod)
+    return mod
+
+
+# fine-grained yield points: loads / stores of the integer fields (the light-switch counters) of the lock objects
+_CACC = {}
+TOOL = 4
+
+
+def _scan_code(code):
+    m = {}
+    prev = None
+    for ins in dis.get_instructions(code):
+        if ins.opname in ("LOAD_ATTR", "STORE_ATTR") and prev is not None and prev.opname.startswith("LOAD_FAST"):
+            m[ins.offset] = ("S" if ins.opname == "STORE_ATTR" else "L", prev.argval, ins.argval)
+        prev = ins
+    return m
+
+
+def _mon_callback(code, offset):
+    acc = _CACC.get(code, {}).get(offset)
+    if acc is None:
+        return sys.monitoring.DISABLE
+    run = ShimLock.run
+    if run is None or not run.fine or run.sched is None or run.direct or run.sched.me() is None:
+        return None
+    kind, recv, attr = acc
+    obj = sys._getframe(1).f_locals.get(recv)
+    try:
+        cur = getattr(obj, attr)
+    except AttributeError:
+        return None
+    if type(cur) is not int:
+        return None
+    run.sched.yield_point(("c" + kind, obj, attr))
+    return None
+
+
+def _install_monitoring(mod):
+    mon = sys.monitoring
+    try:
+        mon.use_tool_id(TOOL, "verif-c20")
+    except ValueError:
+        pass
+    mon.register_callback(TOOL, mon.events.INSTRUCTION, _mon_callback)
+    for cls in vars(mod).values():
+        if not isinstance(cls, type):
+            continue
+        for fn in vars(cls).values():
+            code = getattr(fn, "__code__", None)
+            if code is None:
+                continue
+            _CACC[code] = _scan_code(code)
+            if _CACC[code]:
+                mon.set_local_events(TOOL, code, mon.events.INSTRUCTION)
+
+
 def _field(obj, cls, name):
     try:
         return getattr(obj, "_%s__%s" % (cls.lstrip("_"), name))
@@ -93,21 +174,18 @@ def _field(obj, cls, name):
 class RealRun:
     """N real threads over one real RWLock; thread i runs the rounds of spec[i] ('r' / 'w' per round)"""
 
-    def __init__(self, spec):
-        import ecdsa._rwlock as rwmod
+    def __init__(self, spec, fine=False):
+        rwmod = load_rwmod()
         self.spec = list(spec)
         n = len(spec)
+        self.fine = fine        # True: the accesses to the counters are yield points too
         self.inside = ["-"] * n
         self.ops = [0] * n
+        self.creads = [[] for _ in range(n)]   # counter values read by each thread in its current round
         self.rounds_done = [0] * n
         self.sched = None
         self.direct = False     # True: the shim locks behave as plain non-blocking locks (used by oracle_end)
-        saved = rwmod.threading
-        rwmod.threading = ShimThreading
-        try:
-            self.lock = rwmod.RWLock()
-        finally:
-            rwmod.threading = saved
+        self.lock = rwmod.RWLock()
         lk = self.lock
         self.rs, self.ws = _field(lk, "RWLock", "read_switch"), _field(lk, "RWLock", "write_switch")
         self.mtx = {"RQ": _field(lk, "RWLock", "readers_queue"), "NR": _field(lk, "RWLock", "no_readers"),
@@ -121,7 +199,12 @@ class RealRun:
     def go(self, chooser):
         """run the workers; `chooser(run, i) -> j | None` is asked at every yield point (see lib.dsched)"""
         ShimLock.run = self
-        self.sched = Sched([self._worker(i) for i in range(len(self.spec))], lambda s, i: chooser(self, i))
+        def wrapped(s, i):
+            j = chooser(self, i)
+            if j is not None:
+                self.note(j)
+            return j
+        self.sched = Sched([self._worker(i) for i in range(len(self.spec))], wrapped)
         try:
             self.sched.run()
         finally:
@@ -143,6 +226,7 @@ class RealRun:
                 self.inside[i] = "-"
                 self.rounds_done[i] += 1
                 self.ops[i] = 0
+                self.creads[i] = []
         return body
 
     # ---- observation -----------------------------------------------------------------------------
@@ -156,7 +240,15 @@ class RealRun:
         if s.done[i]:
             return "D"
         p = s.pending[i]
-        return p[0] + p[1].name
+        if p[0] in ("a", "r"):
+            return p[0] + p[1].name
+        return p[0] + ("rc" if p[1] is self.rs else "wc" if p[1] is self.ws else "?")
+
+    def note(self, j):
+        """thread j is about to perform its pending access: remember a counter value it reads"""
+        p = self.sched.pending[j]
+        if p is not None and p[0] == "cL":
+            self.creads[j].append(getattr(p[1], p[2], None))
 
     def blocked(self, i):
         s = self.sched
@@ -175,7 +267,7 @@ class RealRun:
             ",".join(str(i) for i in range(n) if self.blocked(i)))
 
     def key(self):
-        return self.state() + " " + ",".join(map(str, self.ops))
+        return self.state() + " " + ",".join(map(str, self.ops)) + " " + repr(self.creads)
 
     def crashed(self):
         return [(i, e) for i, e in enumerate(self.sched.error) if e is not None]
@@ -214,9 +306,9 @@ class RealRun:
         return None
 
 
-def run_schedule(spec, schedule, want_states=True):
+def run_schedule(spec, schedule, want_states=True, fine=False):
     """replay on the real class; returns (states, status, oracle_finding)"""
-    r = RealRun(spec)
+    r = RealRun(spec, fine)
     out = {"states": [], "status": "end", "bad": None, "k": 0}
 
     def chooser(r, _i):
@@ -407,7 +499,7 @@ def correspond(ctx):
 
 # ------------------------------------------------------------------------------------------------
 # search: exhaustive DFS with state hashing on the REAL class (no model involved)
-def explore_real(spec, deadline, max_states=None, roots=None):
+def explore_real(spec, deadline, max_states=None, roots=None, fine=False):
     """DFS with state hashing over the schedules of the real class (each run replays a prefix, then extends it through
     unvisited states, pushing the alternatives).  returns dict(states, runs, steps, two_readers, violation, complete)"""
     seen = set()
@@ -449,7 +541,7 @@ def explore_real(spec, deadline, max_states=None, roots=None):
                     stack.append(base + [a])
             res["steps"] += 1
             return j
-        RealRun(spec).go(chooser)
+        RealRun(spec, fine).go(chooser)
         if res["violation"]:
             break
     res["states"] = len(seen)
@@ -458,7 +550,8 @@ def explore_real(spec, deadline, max_states=None, roots=None):
 
 def _edge_task(arg):
     """one transition on the real class: replay `sched`, report the state reached"""
-    spec, sched = arg
+    spec, sched = arg[0], arg[1]
+    fine = len(arg) > 2 and arg[2]
     pos = [0]
     out = {}
 
@@ -473,7 +566,7 @@ def _edge_task(arg):
         out.update(key=r.key(), enabled=r.enabled(), bad=bad, two=r.inside.count("R") >= 2)
         return None
     try:
-        RealRun(spec).go(chooser)
+        RealRun(spec, fine).go(chooser)
     except HarnessError as e:
         return {"harness_error": str(e)}
     return out
@@ -499,17 +592,17 @@ def pool():
     return _POOL
 
 
-def explore_real_parallel(spec, deadline):
+def explore_real_parallel(spec, deadline, fine=False):
     """breadth-first over the schedules of the real class with central state hashing; every transition is executed
     (prefix + one step) in a worker process.  Same result record as explore_real."""
     res = {"states": 0, "runs": 0, "steps": 0, "two_readers": False, "violation": None, "complete": True}
-    first = _edge_task((spec, []))
+    first = _edge_task((spec, [], fine))
     if "harness_error" in first:
         raise HarnessError(first["harness_error"])
     seen = {first["key"]}
     frontier = [([], first)]
     while frontier:
-        tasks = [(spec, sch + [j]) for sch, o in frontier for j in o["enabled"]]
+        tasks = [(spec, sch + [j], fine) for sch, o in frontier for j in o["enabled"]]
         if not tasks:
             break
         if time.time() > deadline:
@@ -519,7 +612,7 @@ def explore_real_parallel(spec, deadline):
         res["runs"] += len(tasks)
         res["steps"] += sum(len(t[1]) for t in tasks)
         nxt = []
-        for (sp, sch), o in zip(tasks, outs):
+        for (sp, sch, _f), o in zip(tasks, outs):
             if "harness_error" in o:
                 raise HarnessError(o["harness_error"])
             if o["two"]:
@@ -546,7 +639,8 @@ def search(ctx):
             ctx.hist("search.skipped_for_time", ",".join(spec))
             continue
         try:
-            res = explore_real_parallel(spec, time.time() + left) if len(spec) >= 4 else explore_real(spec, time.time() + left)
+            res = explore_real_parallel(spec, time.time() + left, fine=True) if len(spec) >= 3 else \
+                explore_real(spec, time.time() + left, fine=True)
         except HarnessError as e:
             ctx.problem("harness", "cannot drive the real RWLock", e)
             return
@@ -555,7 +649,8 @@ def search(ctx):
         ctx.hist("search.complete", ",".join(spec), 1 if res["complete"] else 0)
         if res["violation"]:
             v = res["violation"]
-            ctx.violation({"input": {"threads": ",".join(spec), "schedule": v["schedule"]}, "observed": v["observed"],
+            ctx.violation({"input": {"threads": ",".join(spec), "schedule": v["schedule"], "fine": True},
+                           "observed": v["observed"],
                            "expected": "a writer inside excludes everybody else; some thread can always run until all have "
                                        "finished; no exception; all mutexes free and counters 0 at the end"})
             return
@@ -571,8 +666,9 @@ def search(ctx):
 def replay(rec):
     i = rec["input"]
     spec = i["threads"].split(",")
+    fine = bool(i.get("fine"))
     if rec.get("kind_detail") == "readers-not-shared" or not i["schedule"]:
-        res = explore_real(spec, time.time() + 600)
+        res = explore_real(spec, time.time() + 600, fine=fine)
         return bool(res["violation"]) or (res["complete"] and not res["two_readers"])
-    _, _, bad = run_schedule(spec, i["schedule"], want_states=False)
+    _, _, bad = run_schedule(spec, i["schedule"], want_states=False, fine=fine)
     return bad is not None
